@@ -30,10 +30,16 @@ def run_case(case, res):
         res.sample({'scenario': case['scenario'], 'bound': case['bound']}, cap=1)
 
 
+BOUND2 = ('forced-unchanged', 'late-subscribe', 'lonely-read', 'untouched-block')
+
+
 def cases_for(tier):
-    bound = 1 if tier == 'quick' else 2
     names = list(fullrun.c10_scenarios())
-    return [dict(scenario=name, bound=bound, shard=[i, 6]) for name in names for i in range(6)]
+    cases = [dict(scenario=name, bound=1, shard=[i, 6]) for name in names for i in range(6)]
+    if tier != 'quick':
+        cases = [c for c in cases if c['scenario'] not in BOUND2]
+        cases += [dict(scenario=name, bound=2, shard=[i, 16]) for name in BOUND2 for i in range(16)]
+    return cases
 
 
 def run(tier, seed, started):
@@ -50,7 +56,7 @@ def run(tier, seed, started):
         'distinct_nontrivial': len(res.sets.get('schedules', ())),
         'rule': ('16 scenarios (C07 family + queries before / during / after the events) x every '
                  'choice vector with total deviation cost <= bound; distinct = (scenario, vector)'),
-        'deviation_bound_completed': 1 if tier == 'quick' else 2,
+        'deviation_bound_completed': 1 if tier == 'quick' else '2 on ' + ', '.join(BOUND2) + '; 1 on the others',
         'choice_points': c['choice_points'], 'queries_judged_at_quiescence': c['queries_judged'],
         'deviation_kinds_used': sorted(kinds),
         'exhaustive': c.get('exploration_cap_hits', 0) == 0,
